@@ -1411,3 +1411,27 @@ package calendar
 //@     assert(l.GetDayXiongSha() == LunarUtil.GetDayXiongSha(l.month, dp))
 //@     assert(l.GetTimeYi() == LunarUtil.GetTimeYi(dx, tp))
 //@     assert(l.GetTimeJi() == LunarUtil.GetTimeJi(dx, tp))
+
+//@ # ================================================================ C08: index-like results stay inside their tables
+//@ # (stem indices 0..9, branch indices 0..11, for every pillar and every convention; weekday 0..6; from the type invariant)
+//@ ghost func indexRanges(l *Lunar) [C08]
+//@   body
+//@     assert(0 <= l.GetTimeGanIndex() && l.GetTimeGanIndex() <= 9)
+//@     assert(0 <= l.GetTimeZhiIndex() && l.GetTimeZhiIndex() <= 11)
+//@     assert(0 <= l.GetDayGanIndex() && l.GetDayGanIndex() <= 9)
+//@     assert(0 <= l.GetDayGanIndexExact() && l.GetDayGanIndexExact() <= 9)
+//@     assert(0 <= l.GetDayGanIndexExact2() && l.GetDayGanIndexExact2() <= 9)
+//@     assert(0 <= l.GetDayZhiIndex() && l.GetDayZhiIndex() <= 11)
+//@     assert(0 <= l.GetDayZhiIndexExact() && l.GetDayZhiIndexExact() <= 11)
+//@     assert(0 <= l.GetDayZhiIndexExact2() && l.GetDayZhiIndexExact2() <= 11)
+//@     assert(0 <= l.GetMonthGanIndex() && l.GetMonthGanIndex() <= 9)
+//@     assert(0 <= l.GetMonthGanIndexExact() && l.GetMonthGanIndexExact() <= 9)
+//@     assert(0 <= l.GetMonthZhiIndex() && l.GetMonthZhiIndex() <= 11)
+//@     assert(0 <= l.GetMonthZhiIndexExact() && l.GetMonthZhiIndexExact() <= 11)
+//@     assert(0 <= l.GetYearGanIndex() && l.GetYearGanIndex() <= 9)
+//@     assert(0 <= l.GetYearGanIndexByLiChun() && l.GetYearGanIndexByLiChun() <= 9)
+//@     assert(0 <= l.GetYearGanIndexExact() && l.GetYearGanIndexExact() <= 9)
+//@     assert(0 <= l.GetYearZhiIndex() && l.GetYearZhiIndex() <= 11)
+//@     assert(0 <= l.GetYearZhiIndexByLiChun() && l.GetYearZhiIndexByLiChun() <= 11)
+//@     assert(0 <= l.GetYearZhiIndexExact() && l.GetYearZhiIndexExact() <= 11)
+//@     assert(0 <= l.GetWeek() && l.GetWeek() <= 6)
